@@ -163,6 +163,9 @@ def opVecD (op : String) (x y : List Float) (s : Float) (m : Nat) : String :=
   | "SortIncreasing" => vc (some (sortIncreasing x))
   | "SortDecreasing" => vc (some (sortDecreasing x))
   | "Reverse" | "ReverseInPlace" => vc (some (reverse x))
+  | "Set" => vc (some (x.map fun _ => s))
+  | "Copy" => vc (some x)
+  | "Swap" => vc (some (y ++ x))
   | "Scale" => vc (some (scale x s))
   | "Increment" => vc (some (increment x s))
   | "Add" => vc (some (add x y))
@@ -199,6 +202,9 @@ def opVecF (op : String) (x y : List Float32) (s : Float32) (m : Nat) : String :
   | "SortIncreasing" => vc (some (sortIncreasing x))
   | "SortDecreasing" => vc (some (sortDecreasing x))
   | "Reverse" | "ReverseInPlace" => vc (some (reverse x))
+  | "Set" => vc (some (x.map fun _ => s))
+  | "Copy" => vc (some x)
+  | "Swap" => vc (some (y ++ x))
   | "Scale" => vc (some (scale x s))
   | "Increment" => vc (some (increment x s))
   | "Add" => vc (some (add x y))
@@ -233,6 +239,9 @@ def opVecI (k : Nat) (op : String) (x y : List Int) (m : Nat) (c : Int) : String
   | "SortIncreasing" => "ok " ++ hexOrDash (ibytes k (sortIncreasing x))
   | "SortDecreasing" => "ok " ++ hexOrDash (ibytes k (sortDecreasing x))
   | "Reverse" | "ReverseInPlace" => "ok " ++ hexOrDash (ibytes k (reverse x))
+  | "Set" => "ok " ++ hexOrDash (ibytes k (x.map fun _ => c))
+  | "Copy" => "ok " ++ hexOrDash (ibytes k x)
+  | "Swap" => "ok " ++ hexOrDash (ibytes k (y ++ x))
   | "Scale" => "ok " ++ hexOrDash (ibytes k (x.map (· * c)))
   | "MatScale" => if m = 0 then "bad-op" else "ok " ++ hexOrDash (ibytes k (x.map (· * c)))
   | "Increment" => "ok " ++ hexOrDash (ibytes k (x.map (· + c)))
